@@ -123,7 +123,9 @@ def rand_env(r):
         'actions': r.choice([list(range(8)), list(range(6)), [0, 4, 5, 6, 7], r.sample(range(8), r.randint(1, 8))]),
         'obs_types': types, 'obs_colors': colors,
         'reset': reset,
-        'trans': [r.randrange(7) for _ in range(r.randint(1, 5))],
+        'trans': (tr := [r.randrange(7) for _ in range(r.randint(1, 5))]),
+        # one composition in four is written as a chain of chains (same functions, same order)
+        'trans_nesting': (lambda n: [k for k in ([n - n // 2, n // 2] if n >= 2 else [n]) if k] if r.random() < 0.25 else None)(len(tr)),
         'obs': {'name': oname, 'area': (-(h - 1), 0, -half, half)},
         'reward': {'name': 'reduce_sum', 'parts': parts},
         'term': comp.rand_term(r, rtypes + [TYN['MovingObstacle']]),
